@@ -260,7 +260,13 @@ func descDepth(v ssa.Value, depth int) string {
 		if x.Pkg != nil {
 			p = x.Pkg.Pkg.Path() + "."
 		}
-		return "global:" + abbrev(p+x.Name())
+		n := p + x.Name()
+		// the os package re-exports the fs sentinels (os.ErrNotExist == fs.ErrNotExist, …): one name for one value
+		switch n {
+		case "os.ErrNotExist", "os.ErrExist", "os.ErrPermission", "os.ErrClosed", "os.ErrInvalid":
+			n = "io/fs." + x.Name()
+		}
+		return "global:" + abbrev(n)
 	case *ssa.Function:
 		return "func:" + fnName(x)
 	case *ssa.Builtin:
